@@ -32,6 +32,28 @@ def stepC11 (s : DS) (fs : List String) : DS × String :=
       let p := path.toList
       ({ s with store := (s.store.filter (fun f => f.path != p)) ++ [{ path := p, times := ts }] }, "ok")
     | none => (s, "bad-op")
+  | ["replace", path, times] =>
+    match parseTimes times with
+    | some ts =>
+      let p := path.toList
+      ({ s with store := s.store.map (fun f => if f.path == p then { f with times := ts } else f) }, "ok")
+    | none => (s, "bad-op")
+  | ["del", db, meas, x] =>
+    -- external event from retention's point of view: the DELETE API (C10 semantics, predicate
+    -- `epoch_us(time) >= x`; NULL times make it NULL ⇒ row kept) on the files listed under db/meas/
+    match int? x with
+    | some x =>
+      let pre := measPrefix true db.toList meas.toList
+      let hit (t : Option Int) : Bool := match t with | some v => decide (x ≤ v) | none => false
+      let aff (f : PFile) : Bool := pre.isPrefixOf f.path && isParquet f.path && f.times.any hit
+      let n := ((s.store.filter aff).map (fun f => (f.times.filter hit).length)).sum
+      let st := s.store.filterMap (fun f =>
+        if aff f then
+          (let keep := f.times.filter (fun t => !hit t)
+           if keep.isEmpty then none else some { f with times := keep })
+        else some f)
+      ({ s with store := st }, s!"ok deleted={n}")
+    | none => (s, "bad-op")
   | ["rm", path] => ({ s with store := s.store.filter (fun f => f.path != path.toList) }, "ok")
   | ["now", ns] =>
     match int? ns with
